@@ -49,7 +49,8 @@ def gen_cases(tier, seed):
                "metadata_only": rng.random() < 0.08, "dest": rng.choice(["file", "dir"])}
         faults = rng.choice([None, None, 0.1, 0.25])
         cancel = None if rng.random() < 0.7 else [rng.choice("SD"), rng.randrange(1, 12)]
-        cases.append({"cfg": cfg, "faults": faults, "cancel": cancel, "seed": seed * 1_000_003 + i, "prior": rng.choice([None, None, None, "completed", "cancelled"])})
+        cases.append({"cfg": cfg, "faults": faults, "cancel": cancel, "seed": seed * 1_000_003 + i, "prior": rng.choice([None, None, None, "completed", "cancelled"]),
+                      "pacing": rng.choice([None, None, {"src_calls": 3}, {"src_calls": 6}, {"dst_calls": 3}, {"src_calls": 2, "dst_calls": 2}, {"dst_idle": 2}, {"src_idle": 2, "dst_calls": 2}])})
     # every single and double loss of a small acknowledged transfer (EOF or File Data as first PDU at the receiver, late Metadata, ...),
     # all switches on
     for size in (1, 5):
@@ -351,7 +352,7 @@ def run_case(case):
         actions = {}
         if case["cancel"]:
             actions[case["cancel"][1]] = [("cancel", case["cancel"][0])]
-        r = Runner(w, plan=plan, max_expiries=30, max_rounds=2500, actions=actions)
+        r = Runner(w, plan=plan, max_expiries=30, max_rounds=2500, actions=actions, pacing=case.get("pacing"))
         try:
             if case.get("prior"):
                 # the handlers already served a transaction, under the *opposite* indication switches; the user then re-configures them
